@@ -143,7 +143,7 @@ def main(tier: str, seed: int) -> int:
     for label, cfg in scenario_list(tier):
         traces += explore(label, cfg, budget, rng, chk)
     res = tlc.validate("RequestsTrace", traces)
-    common.judge_traces(chk, "Requests", traces, res, sig_fn)
+    common.judge_traces(chk, "Requests", traces, res, sig_fn, selftest="RequestsTrace")
     for tr in traces[:2]:
         chk.sample({"cfg": tr["cfg"], "requests": tr["meta"]["requests"][:4], "events": tr["ev"][:4]})
     chk.assumptions += [
